@@ -3,6 +3,7 @@ import Sqfs.Spec.TarNumber
 import Sqfs.Model.TarSparse
 import Sqfs.Model.TarConv
 import Sqfs.Model.TarFix
+import Sqfs.Model.TarSqfs2tar
 import Sqfs.Spec.TarHeader
 namespace Driver.C04
 open Sqfs.Tar
@@ -105,6 +106,69 @@ def describeNode (devs : List (List Bytes × Nat × Nat)) (n : TNode) : String :
     let d := (devs.find? (·.1 = n.path)).getD (n.path, 0, 0)
     "nod " ++ path ++ perm ++ s!" mtime={n.modTime} " ++ (if f = S_IFCHR then "c" else "b") ++ s!" {d.2.1} {d.2.2}"
 
+/-- `k:v,k:v` (hex tokens) or `-` -/
+def parseXattrList (s : String) : Option (List (Bytes × Bytes)) :=
+  if s = "-" then some [] else
+  (s.splitOn ",").foldr (fun kv acc => match acc, kv.splitOn ":" with
+    | some l, [k, v] => match fromHex k, fromHex v with
+      | some kb, some vb => some ((kb, vb) :: l)
+      | _, _ => none
+    | _, _ => none) (some [])
+
+/-- one listing entry: `name;mode-octal;uid;gid;mtime;inode;target|null;content;xattrs;maj;min` -/
+def parseRawEnt (tok : String) : Option RawEnt :=
+  match tok.splitOn ";" with
+  | [nm, mo, ui, gi, mt, ino, tg, ct, xs, mj, mi] => do
+    let nm ← fromHex nm
+    let mo ← parseOct mo
+    let ui ← ui.toNat?
+    let gi ← gi.toNat?
+    let mt ← mt.toNat?
+    let ino ← ino.toNat?
+    let tg ← if tg = "null" then some none else (fromHex tg).map some
+    let ct ← fromHex ct
+    let xs ← parseXattrList xs
+    let mj ← mj.toNat?
+    let mi ← mi.toNat?
+    pure { name := nm, mode := mo, uid := ui, gid := gi, mtime := mt, inode := ino, target := tg, content := ct, xattr := xs,
+           devMajor := mj, devMinor := mi }
+  | _ => none
+
+def parseAll {α : Type} (f : String → Option α) : List String → Option (List α)
+  | [] => some []
+  | x :: r => do
+    let a ← f x
+    let t ← parseAll f r
+    pure (a :: t)
+
+/-- `s2t <subdirs: hex,hex|-> <keep-as-dir> <root-becomes hex|null> <no-hard-links> <no-skip> <root: mode;uid;gid;mtime;xattrs> {entry}`:
+    the bytes the model's sqfs2tar writes (`sqfs2tarFull`), or `fail` -/
+def s2tOp (ws : List String) (entriesOnly : Bool) : String :=
+  match ws with
+  | sd :: kd :: rb :: nl :: ns :: root :: ents =>
+    let sds := if sd = "-" then some [] else parseAll fromHex (sd.splitOn ",")
+    let rbv := if rb = "null" then some none else (fromHex rb).map some
+    let rootv : Option RootInfo := match root.splitOn ";" with
+      | [mo, ui, gi, mt, xs] => do
+        let mo ← parseOct mo
+        let ui ← ui.toNat?
+        let gi ← gi.toNat?
+        let mt ← mt.toNat?
+        let xs ← parseXattrList xs
+        pure { mode := mo, uid := ui, gid := gi, mtime := mt, xattr := xs }
+      | _ => none
+    match sds, rbv, rootv, parseAll parseRawEnt ents with
+    | some sds, some rbv, some rootv, some raw =>
+      let o : S2tOpts := { subdirs := sds, keepAsDir := kd = "1", rootBecomes := rbv, noLinks := nl = "1", dontSkip := ns = "1" }
+      if entriesOnly then
+        " ".intercalate ((s2tEntries o rootv raw).map fun e =>
+          toHexTok e.name ++ (if e.hardLink then ">" ++ optHex e.target else ""))
+      else match sqfs2tarFull o rootv raw with
+        | none => "fail"
+        | some b => "ok " ++ toHexTok b
+    | _, _, _, _ => "bad-op"
+  | _ => "bad-op"
+
 def step (line : String) : String :=
   match words line with
   | ["rn", h] => withHex h fun b => if b.isEmpty then "bad-op" else showNum (readNumber b)
@@ -155,6 +219,8 @@ def step (line : String) : String :=
   | ["decx", r, k, d, h] => withHex h fun s =>
     showRead s (readHeaderWith { rejectOversizedMap := r = "1", xattrKeepOrder := k = "1", schilyKeyDecode := d = "1" } s)
   | ["canonip", h] => withHex h fun s => let (b, ok) := canonInPlace s; (if ok then "0 " else "-1 ") ++ toHexTok b
+  | "s2t" :: ws => s2tOp ws false
+  | "s2tents" :: ws => s2tOp ws true                      -- the entries `main` gets: emitted name, `>target` for a hard link
   | [op, rb, sflag, kflag, dmt, duid, dgid, dmode, h] =>
     if op ≠ "t2s" ∧ op ≠ "t2scur" then "bad-op" else
     match fromHex rb, dmt.toNat?, duid.toNat?, dgid.toNat?, parseOct dmode, fromHex h with
